@@ -153,6 +153,25 @@ fn zst_slice_fill_clone_panic() -> bool {
     r.is_err() && c == d
 }
 
+/// C18-e (known finding): a by-value copy lowers the alignment, switches chunks and is dropped;
+/// the scope it was copied from is left with a misaligned bump position
+fn by_value_lowered_alignment() -> bool {
+    use bump_scope::{alloc::Global, settings::BumpSettings, traits::{BumpAllocatorScope, BumpAllocatorTypedScope}};
+    let mut bump: Bump<Global, BumpSettings<8, true>> = Bump::new();
+    {
+        let parent = bump.as_mut_scope();
+        let mut copy = parent.by_value();
+        copy.aligned::<1, _>(|inner| {
+            let _ = inner.alloc(0u8);
+            let _ = inner.alloc_slice_fill(8192, 0u8);
+        });
+        drop(copy);
+    }
+    let pos = bump.stats().current_chunk().unwrap().bump_position().as_ptr() as usize;
+    println!("minimum alignment 8: position of the original scope after the by-value copy is gone: {pos:#x} (mod 8 = {})", pos % 8);
+    pos % 8 == 0
+}
+
 fn main() {
     let which = std::env::args().nth(1).unwrap_or_default();
     let ok = match which.as_str() {
@@ -162,6 +181,7 @@ fn main() {
         "zst_drain_double_drop" => zst_drain_double_drop(),
         "mut_vec_failed_grow_then_into_slice" => mut_vec_failed_grow_then_into_slice(),
         "zst_slice_fill_clone_panic" => zst_slice_fill_clone_panic(),
+        "by_value_lowered_alignment" => by_value_lowered_alignment(),
         _ => {
             eprintln!("usage: findings reset_to_lower_aligned_checkpoint|without_shrink_unfit|any_stats_header");
             std::process::exit(2);
